@@ -108,7 +108,7 @@ def classes(case):
 
 SUBS = [
     Sub("exports", check, gen=lambda tier: S.model_specs(PROFILE, 1, 9), nontrivial=nontrivial, classes=classes,
-        n={"quick": 400, "thorough": 4000},
+        n={"quick": 800, "thorough": 6000},
         essential=["rel:mutex", "rel:cardinal", "multi-relations-parent", "op:XOR", "op:EQUIVALENCE", "op:EXCLUDES",
                    "operator-word-name"]),
 ]
